@@ -481,6 +481,13 @@ def _default_table(ctx, fi):
             v = n.ast.value
             if isinstance(v, ast.Subscript) or isinstance(v, ast.Name):
                 continue
+            if isinstance(v, ast.DictComp):
+                # the map built in one expression: `{x.name: given[x.name] if x.name in given else <unset value> for x in ...}`
+                v = v.value
+                if isinstance(v, ast.IfExp) and isinstance(v.test, ast.Compare) and len(v.test.ops) == 1 and isinstance(v.test.ops[0], (ast.In, ast.NotIn)):
+                    v = v.orelse if isinstance(v.test.ops[0], ast.In) else v.body
+                elif isinstance(v, ast.Subscript):
+                    continue
             vals.append((n, v))
         elif n.kind == "stmt" and isinstance(n.ast, ast.Assign) and isinstance(n.ast.targets[0], ast.Name) and "default" in n.ast.targets[0].id:
             vals.append((n, n.ast.value))
